@@ -244,5 +244,8 @@ FIXED_TEXTS = [
     "DELETE FROM t", "DELETE FROM t WHERE a = 1 LIMIT 2", "DELETE FROM s . t WHERE a RETURNING a , b", "DELETE t", "DELETE FROM t WHERE", "DELETE FROM t RETURNING",
     "CREATE TABLE t ( a INT )", "DROP TABLE t", "MERGE INTO t USING u ON a WHEN MATCHED THEN DELETE", "a", "RETURNING a", "REPLACE INTO t VALUES ( 1 )", "TRUNCATE t", ";",
     "SELECT name FROM target", "SELECT a FROM source s JOIN matched m ON TRUE", "SELECT a value FROM t", "SELECT f ( a ) status FROM t",
+    "SELECT 1 WHERE a = 1", "SELECT 1 ORDER BY 1 LIMIT 1 OFFSET 2", "SELECT COUNT ( x ) n HAVING COUNT ( x ) > 1", "SELECT 1 GROUP BY a", "SELECT 1 ON a",
+    "INSERT INTO t SELECT 1 RETURNING a", "INSERT INTO t SELECT 1 ON CONFLICT DO NOTHING", "SELECT 1 x y", "SELECT 1 FETCH FIRST 1 ROWS ONLY",
+    "SELECT a FROM t GROUP BY 'GROUPING SETS' , b", 'SELECT a FROM t GROUP BY "GROUPING SETS"', "SELECT a FROM t GROUP BY GROUPING SETS ( ( a ) )",
     "SELECT " + "( " * 98 + "a" + " )" * 98 + " FROM t", "SELECT " + "( " * 99 + "a" + " )" * 99 + " FROM t", "SELECT " + "NOT " * 99 + "a FROM t",
 ]
